@@ -27,7 +27,7 @@ CACHE = os.path.join(VERIF, ".cache")
 EVIDENCE_DIR = os.environ.get("VERIF_EVIDENCE_DIR") or os.path.join(VERIF, "evidence")
 REPLAY_DIR = os.environ.get("VERIF_REPLAY_DIR") or os.path.join(VERIF, "replays")
 KNOWN_FILE = os.path.join(VERIF, "KNOWN_FINDINGS.txt")
-N_SLOTS = int(os.environ.get("VERIF_SLOTS", "12"))
+N_SLOTS = int(os.environ.get("VERIF_SLOTS", "16"))
 DEFAULT_MEM_GB = 4.5
 
 TRUSTED_BASE = [
@@ -118,14 +118,18 @@ class Fragment:
         )
         if self.name != "common":
             pre += "    use crate::verif_common::*;\n"
-        return pre + self.body + "\n}\n"
+        return pre + self.body + "\n// @@VERIF-END %s\n}\n" % self.mod
 
 
 def load_fragments():
     frags = []
     for fn in sorted(os.listdir(HARNESS_DIR)):
         if fn.endswith(".rs"):
-            frags.append(Fragment(os.path.join(HARNESS_DIR, fn)))
+            fr = Fragment(os.path.join(HARNESS_DIR, fn))
+            # work-in-progress fragments are invisible to the registered commands (dev runs set VERIF_WIP=1)
+            if fr.meta.get("wip") and not os.environ.get("VERIF_WIP"):
+                continue
+            frags.append(fr)
     return frags
 
 
@@ -304,6 +308,13 @@ def parse_kani_output(text):
     res["solver_s"] = float(m.group(1)) if m else None
     m = re.search(r"Runtime decision procedure: ([0-9.e+-]+)s", text)
     res["decision_s"] = float(m.group(1)) if m else None
+    m = re.search(r"size of program expression: (\d+) steps", text)
+    res["ssa_steps"] = int(m.group(1)) if m else None
+    m = re.search(r"Generated (\d+) VCC\(s\), (\d+) remaining after simplification", text)
+    res["vccs"] = int(m.group(1)) if m else None
+    res["vccs_remaining"] = int(m.group(2)) if m else None
+    m = re.search(r"VERIF_MAXRSS_KB=(\d+)", text)
+    res["max_rss_mb"] = int(m.group(1)) // 1024 if m else None
     m = re.search(r"(\d+) variables, (\d+) clauses", text)
     if m:
         res["sat_vars"], res["sat_clauses"] = int(m.group(1)), int(m.group(2))
@@ -350,8 +361,11 @@ def run_cmd(cmd, cwd, timeout, mem_gb, env=None, logfile=None):
     return p.returncode, out, timed_out, time.time() - t0
 
 
+TIME_PREFIX = ["/usr/bin/time", "-f", "VERIF_MAXRSS_KB=%M"] if os.path.exists("/usr/bin/time") else []
+
+
 def kani_cmd(h, slot_dir, playback=True):
-    cmd = ["cargo", "kani", "--harness", h["qualified"], "--exact", "--no-default-features",
+    cmd = TIME_PREFIX + ["cargo", "kani", "--harness", h["qualified"], "--exact", "--no-default-features",
            "--features", h["features"], "--target-dir", os.path.join(slot_dir, "target")]
     if h.get("stubbing"):
         cmd += ["-Z", "stubbing"]
@@ -400,7 +414,7 @@ def run_harness(h, src, logdir):
         r["reason"] = "timeout after %ds" % h["timeout"]
         return r
     pr = parse_kani_output(out)
-    r.update({k: pr[k] for k in ("n_checks", "verification_time_s", "symex_s", "solver_s", "decision_s") if k in pr})
+    r.update({k: pr[k] for k in ("n_checks", "verification_time_s", "symex_s", "solver_s", "decision_s", "max_rss_mb", "sat_vars", "sat_clauses", "ssa_steps", "vccs", "vccs_remaining") if k in pr})
     r["covers_satisfied"] = sum(1 for c in pr["covers"] if c["status"] == "SATISFIED")
     r["covers_total"] = len(pr["covers"])
     r["covers"] = [{"description": c["description"], "status": c["status"]} for c in pr["covers"]]
@@ -460,9 +474,14 @@ def native_replay(h, fragment, src, test_code, logdir, release=False):
         i = text.find(marker)
         if i < 0:
             return None, "harness module not found in scratch copy"
-        # append the test at the very end of the module (the last closing brace of the file belongs to it)
-        j = text.rstrip().rfind("}")
-        text = text[:j] + "\n" + test_code + "\n}\n"
+        # append the test at the end of the harness's own module (several fragments may share one source file)
+        endmark = "// @@VERIF-END %s\n" % fragment.mod
+        j = text.find(endmark, i)
+        if j >= 0:
+            text = text[:j] + test_code + "\n" + text[j:]
+        else:
+            j = text.rstrip().rfind("}")
+            text = text[:j] + "\n" + test_code + "\n}\n"
         with open(p, "w") as f:
             f.write(text)
     env = {"CARGO_TARGET_DIR": os.path.join(CACHE, "playback-target" + ("-rel" if release else ""))}
@@ -513,6 +532,11 @@ def run_property(prop, tier, seed, selftests=None, only=None):
     sel = select(frags, prop, tier)
     if only:
         sel = [(f, h) for f, h in sel if only in h["id"]]
+    ids = os.environ.get("VERIF_ONLY_IDS")
+    if ids:
+        # dev / seed-evaluation aid: run exactly these harness ids (of this property and tier)
+        want = set(ids.split(","))
+        sel = [(f, h) for f, h in sel if h["id"] in want]
     if not sel:
         raise SystemExit("no harness registered for %s" % prop)
     need = {fr.name for fr, _ in sel}
@@ -721,6 +745,8 @@ def write_evidence(prop, tier, seed, sel, results, violations, undecided, known_
     functions = set()
     stubs = set()
     assumes = set()
+    ssa_steps = 0
+    vccs = 0
     for fr, h in sel:
         r = byname.get(h["id"], {"verdict": "NOT-RUN"})
         total_checks += r.get("n_checks", 0) or 0
@@ -728,6 +754,8 @@ def write_evidence(prop, tier, seed, sel, results, violations, undecided, known_
         if r["verdict"] in ("DISCHARGED", "TWIN-OK"):
             nd += 1
         solver_s += r.get("verification_time_s") or 0.0
+        ssa_steps += r.get("ssa_steps") or 0
+        vccs += r.get("vccs") or 0
         functions.update(h["functions"])
         stubs.update(h["stubs"])
         assumes.update(h["assumes"])
@@ -735,7 +763,9 @@ def write_evidence(prop, tier, seed, sel, results, violations, undecided, known_
             "harness": h["qualified"], "id": h["id"], "obligation": h["obligation"], "tier": h["tier"], "features": h["features"],
             "functions_encoded": h["functions"], "bounds": h["bounds"], "assumes": h["assumes"], "stubs": h["stubs"],
             "verdict": r["verdict"], "cbmc_checks": r.get("n_checks"), "covers": r.get("covers"),
-            "wall_s": r.get("wall_s"), "cbmc_time_s": r.get("verification_time_s"),
+            "wall_s": r.get("wall_s"), "cbmc_time_s": r.get("verification_time_s"), "symex_s": r.get("symex_s"),
+            "solver_s": r.get("solver_s"), "sat_vars": r.get("sat_vars"), "sat_clauses": r.get("sat_clauses"), "max_rss_mb": r.get("max_rss_mb"),
+            "ssa_steps": r.get("ssa_steps"), "vccs": r.get("vccs"),
             "mutation_twin": h["twin"],
         }
         if r.get("reason"):
@@ -757,6 +787,16 @@ def write_evidence(prop, tier, seed, sel, results, violations, undecided, known_
                     "the stated bounds. distinct_nontrivial = number of kani::cover! reachability witnesses the solver found "
                     "SATISFIED (each one a distinct non-trivial region of the input space shown reachable; guards against vacuous passes).",
             "samples": samples,
+            # the model-checking keys of the evidence schema, as CBMC measures them on this run
+            "states": ssa_steps,
+            "transitions": vccs,
+            "traces_validated_against_impl": len(violations) + sum(1 for st in selftests if st.get("ok")),
+            "states_transitions_rule": "states = steps of the symbolic program (SSA equation) CBMC built from the compiled real code, summed over "
+                                       "the harnesses of this run ('size of program expression: N steps'); each step is one symbolic program state "
+                                       "transformer covering all values of the symbolic inputs. transitions = verification conditions generated from "
+                                       "those steps ('Generated N VCC(s)') before simplification. traces_validated_against_impl = solver counterexamples "
+                                       "replayed natively against the real build in this run (0 on a clean tree) plus native self-validations of stubs / "
+                                       "lowered models against the real functions that passed.",
             "obligations": len(sel),
             "discharged": nd,
             "known_findings_matched": [{"harness": hn, "what": k["what"]} for k, hn in known_hits],
